@@ -59,6 +59,12 @@ UNIVERSE: typing.List[typing.Tuple[typing.Tuple[str, ...], str, int, int]] = [
 ROOT = "r"
 SECOND_ROOT = "s"
 LANGS = ["c", "cpp", "py", "html"]
+# The same language with the `enable_stropping: false` configuration override.  Only c and cpp: with the override the
+# py templates fail on any type that has a field (filter_longest_id_length takes len() of Field objects), which is not
+# this property's subject, and html never strops.
+NOSTROP = "-nostrop"
+NOSTROP_TARGETS = ["c" + NOSTROP, "cpp" + NOSTROP]
+NOSTROP_SPELLINGS = ["rel", "abs_slash"]
 DEFAULT_EXT = {"c": ".h", "cpp": ".hpp", "py": ".py", "html": ".html"}  # written down here, not read from nunavut
 EXTS: typing.List[typing.Optional[str]] = [None, ".hxx", ".gen.h"]
 STEMS: typing.List[typing.Optional[str]] = [None, "nsidx"]
@@ -68,6 +74,23 @@ MAX_SET = 4
 MAX_DISK_SET = 2
 
 TypeSpec = typing.Tuple[typing.Tuple[str, ...], str, int, int]
+
+
+def split_target(target: str) -> typing.Tuple[str, bool]:
+    """'c' -> ('c', stropping enabled), 'c-nostrop' -> ('c', stropping disabled by configuration)"""
+    if target.endswith(NOSTROP):
+        return target[: -len(NOSTROP)], False
+    return target, True
+
+
+def sig_for(target: str, folded_ns: bool, kind: typing.Optional[str] = None) -> dict:
+    base, strop = split_target(target)
+    sig: dict = {"lang": base, "folded_ns": folded_ns}
+    if not strop:
+        sig["strop"] = "off"
+    if kind is not None:
+        sig["kind"] = kind
+    return sig
 
 
 def tname(s: TypeSpec) -> str:
@@ -146,7 +169,21 @@ def lctx_for(lang: str, ext: typing.Optional[str], stem: typing.Optional[str]) -
     if key not in _LCTX:
         from vf import gen
 
-        _LCTX[key] = gen.language_context(lang, None, ext, stem)
+        base, strop = split_target(lang)
+        if strop:
+            _LCTX[key] = gen.language_context(base, None, ext, stem)
+        else:
+            from nunavut.lang import Language, LanguageContextBuilder
+
+            b = LanguageContextBuilder(include_experimental_languages=True).set_target_language(base)
+            if ext is not None:
+                b.set_target_language_extension(ext)
+            if stem is not None:
+                b.set_target_language_configuration_override(Language.WKCV_NAMESPACE_FILE_STEM, stem)
+            b.set_target_language_configuration_override(Language.WKCV_ENABLE_STROPPING, False)
+            _LCTX[key] = b.create()
+            if _LCTX[key].get_target_language().enable_stropping:
+                raise HarnessError("glue: the enable_stropping override did not take effect")
     return _LCTX[key]
 
 
@@ -159,7 +196,13 @@ class Expect:
     """Everything the oracle needs, computed from the specs of the input set (not from nunavut's tree code)."""
 
     def __init__(self, specs: typing.Sequence[TypeSpec], lctx: typing.Any, lang: str, ext: typing.Optional[str]):
-        self.ext = DEFAULT_EXT[lang] if ext is None else ext
+        base_lang, self.strop = split_target(lang)
+        self.ext = DEFAULT_EXT[base_lang] if ext is None else ext
+        # Acceptable relative paths per type, most expected first.  Stropping enabled: stropped components, file-name
+        # token stropped or as written.  Stropping disabled by configuration: every component (and the token) may be
+        # the unstropped or the stropped name - the statement does not say which; what it does say (one file per type,
+        # the same path whether generated or referenced, model == disk) is checked on top of this.
+        self.cands: typing.Dict[str, typing.Tuple[typing.Tuple[str, ...], ...]] = {}
         self.types: typing.Dict[str, TypeSpec] = {tname(s): s for s in specs}
         self.rel: typing.Dict[str, typing.Tuple[str, ...]] = {}
         self.raw: typing.Dict[str, typing.Tuple[str, ...]] = {}
@@ -176,6 +219,12 @@ class Expect:
             self.rel[tname(s)] = parts
             self.alt[tname(s)] = parts[:-1] + (token + self.ext,)
             self.raw[tname(s)] = tuple(ns) + (token + self.ext,)
+            if self.strop:
+                cands = [self.rel[tname(s)], self.alt[tname(s)]]
+            else:
+                choices = [(c, strop1(lctx, c)) for c in ns] + [(token + self.ext, strop1(lctx, token) + self.ext)]
+                cands = [tuple(x) for x in itertools.product(*choices)]
+            self.cands[tname(s)] = tuple(dict.fromkeys(cands))
             if parts != self.raw[tname(s)]:
                 self.stropped_any = True
             for i in range(1, len(ns) + 1):
@@ -184,7 +233,7 @@ class Expect:
         inv: typing.Dict[tuple, int] = collections.Counter(self.ns_stropped.values())
         self.folded_ns = any(v > 1 for v in inv.values())
         relinv: typing.Dict[tuple, int] = collections.Counter(self.rel.values())
-        self.folded_types = any(v > 1 for v in relinv.values())
+        self.folded_types = self.strop and any(v > 1 for v in relinv.values())
         self.gap = any(not any(s[0] == n for s in specs) for n in self.closure)
         self.multi_version = len({(s[0], s[1]) for s in specs}) < len(specs)
         self.multi_ns = len({s[0] for s in specs}) > 1
@@ -195,11 +244,7 @@ class Expect:
         key = (out, str(cwd))
         if key not in self._want:
             self._want[key] = {
-                n: tuple(
-                    dict.fromkeys(
-                        [norm(cwd, pathlib.PurePath(out, *self.rel[n])), norm(cwd, pathlib.PurePath(out, *self.alt[n]))]
-                    )
-                )
+                n: tuple(dict.fromkeys(norm(cwd, pathlib.PurePath(out, *c)) for c in self.cands[n]))
                 for n in self.types
             }
         return self._want[key]
@@ -283,7 +328,7 @@ def check_model(
             v.append(("type_unknown", f"get_all_datatypes() yields {n} which was not in the input"))
     for n, p in seen:
         if n in want_path and norm(cwd, p) not in want_path[n]:
-            v.append(("type_path", f"{n} mapped to {p}, expected {pathlib.Path(out, *ex.rel[n])}"))
+            v.append(("type_path", f"{n} mapped to {p}, expected {pathlib.Path(out, *ex.cands[n][0])}"))
     first_path = {}
     for n, p in seen:
         first_path.setdefault(n, norm(cwd, p))
@@ -294,9 +339,9 @@ def check_model(
         groups[norm(cwd, p)].add(n)
     for p, ns_ in groups.items():
         if len(ns_) > 1:
-            rels = {ex.rel.get(n) for n in ns_}
-            alts = {ex.alt.get(n) for n in ns_}
-            if (len(rels) != 1 or None in rels) and (len(alts) != 1 or None in alts):
+            # excused only where one acceptable (stropped) path is common to all of them
+            common = set.intersection(*[set(ex.cands.get(n, ())) for n in ns_])
+            if not common:
                 shown = p[len(str(cwd)) + 1 :] if p.startswith(str(cwd) + "/") else p
                 v.append(("shared_file", f"distinct types {sorted(ns_)} share {shown} without a stropping fold"))
 
@@ -516,7 +561,7 @@ def xroot_model(
     root_prefix = strop1(lctx, ROOT) + "/"
     want = set()
     for n in names:
-        cands = list(dict.fromkeys(["/".join(ex_r.rel[n]), "/".join(ex_r.alt[n])]))
+        cands = ["/".join(c) for c in ex_r.cands[n]]
         want.update(cands)
         found = [c for c in cands if c in targets]
         if not found:
@@ -524,7 +569,8 @@ def xroot_model(
             vio.append(v)
         g = generated.get(n)
         if g is not None and found and g not in [f"{base}/{c}" for c in found]:
-            vio.append(("xroot_ref", f"{n} is generated to {g} but referenced as {found[0]} below {out}"))
+            shown = g[len(str(sandbox)) + 1 :] if g.startswith(str(sandbox) + "/") else g
+            vio.append(("xroot_ref", f"{n} is generated to {shown} but referenced as {found[0]} below {out}"))
     for t in targets:
         if t.startswith(root_prefix) and t not in want:
             vio.append(("xroot_ref", f"{uname} refers to {t} which is the path of none of its dependencies"))
@@ -568,25 +614,26 @@ def _model_job(job: typing.Tuple[typing.Tuple[str, ...], str, typing.Optional[in
             res["evals"] += 1
             if list(root_node.get_all_datatypes()):
                 bag.add(
-                    {"kind": "type_unknown", "lang": lang, "folded_ns": False},
+                    sig_for(lang, False, "type_unknown"),
                     {"mode": "model", "types": [], "lang": lang},
                     "a tree built from no types contains a type",
                 )
         res["feat"]["empty_set"] += 1
         return res
     perms = list(itertools.permutations(names))
-    for lang in LANGS:
-        for ext in EXTS:
-            for stem in STEMS:
+    for lang in LANGS + NOSTROP_TARGETS:
+        nostrop = not split_target(lang)[1]
+        for ext in EXTS[:1] if nostrop else EXTS:
+            for stem in STEMS[:1] if nostrop else STEMS:
                 lctx = lctx_for(lang, ext, stem)
                 ex = Expect([BY_NAME[n] for n in names], lctx, lang, ext)
-                for spelling in SPELLINGS:
+                for spelling in NOSTROP_SPELLINGS if nostrop else SPELLINGS:
                     core_cfg = (ext is None and stem is None) or spelling == "rel"
                     cell = f"{key}|{lang}|{ext}|{stem}|{spelling}"
                     every_order = seed is None or core_cfg or stable_hash(cell) % 16 == seed % 16
                     first_canon: typing.Optional[tuple] = None
                     first_order: typing.Optional[tuple] = None
-                    sig_base = {"lang": lang, "folded_ns": ex.folded_ns}
+                    sig_base = sig_for(lang, ex.folded_ns)
                     case_base = {"mode": "model", "lang": lang, "ext": ext, "stem": stem, "spelling": spelling}
                     runs = [(p, None) for p in (perms if every_order else perms[:1] + perms[-1:][: len(perms) - 1])]
                     res["feat"]["cells_every_order"] += every_order
@@ -624,6 +671,16 @@ def _model_job(job: typing.Tuple[typing.Tuple[str, ...], str, typing.Optional[in
                     res["evals"] += 1
                     if ex.nontrivial():
                         res["nontrivial"] += 1
+                    if nostrop:
+                        res["feat"]["nostrop_cells"] += 1
+                        res["feat"]["nostrop_cells_with_reserved_token"] += ex.stropped_any
+                        if first_canon is not None:
+                            # statistic only (the statement does not place namespace files): a namespace node whose
+                            # output folder is not the folder its types are written to
+                            folder = {i: f_ for i, _p, f_, _fn, _k, _t in first_canon[1]}
+                            res["feat"]["nostrop_cells_ns_folder_differs"] += any(
+                                folder.get(tuple(BY_NAME[n][0])) != os.path.dirname(p_) for n, p_ in first_canon[0]
+                            )
                 f = res["feat"]
                 f["configs"] += 1
                 f["gap"] += ex.gap
@@ -638,7 +695,7 @@ def _model_job(job: typing.Tuple[typing.Tuple[str, ...], str, typing.Optional[in
                         "ext": ext,
                         "stem": stem,
                         "out": "out/",
-                        "expected_files": ["/".join(ex.rel[n]) for n in names],
+                        "expected_files": ["/".join(ex.cands[n][0]) for n in names],
                         "orders": len(perms),
                     }
     return res
@@ -649,8 +706,16 @@ INCLUDE_RE = re.compile(r'^\s*#\s*include\s*[<"]([^>"]+)[>"]', re.M)
 IMPORT_RE = re.compile(r"^\s*import\s+([A-Za-z_][A-Za-z0-9_.]*)\s*$", re.M)
 
 
+NOSTROP_YAML = "nostrop.yaml"
+
+
 def _cli(lang: str, out: str, ext: typing.Optional[str], stem: typing.Optional[str], extra: typing.List[str]) -> list:
-    a = ["--target-language", lang, "--experimental-languages", "--outdir", out]
+    base, strop = split_target(lang)
+    a = ["--target-language", base, "--experimental-languages", "--outdir", out]
+    if not strop:
+        # written into the sandbox (= cwd) before the first snapshot; the option takes a list (nargs=*), so it must be
+        # followed by another option, never by the positional root namespace
+        a = ["--configuration", NOSTROP_YAML] + a
     if ext is not None:
         a += ["--output-extension", ext]
     if stem is not None:
@@ -675,6 +740,9 @@ def disk_case(
     sandbox.mkdir(parents=True)
     write_dsdl(sandbox, names)
     os.chdir(sandbox)
+    base_lang, strop = split_target(lang)
+    if not strop:
+        (sandbox / NOSTROP_YAML).write_text(f"nunavut.lang.{base_lang}:\n  enable_stropping: false\n", encoding="utf-8")
     lctx = lctx_for(lang, ext, stem)
     ex = Expect([BY_NAME[n] for n in names], lctx, lang, ext)
     out = out_spelling(spelling, sandbox)
@@ -684,8 +752,13 @@ def disk_case(
     runs = 0
 
     def classify(
-        before: dict, after: dict, required: typing.List[typing.Tuple[str, ...]], ns_files: typing.Set[str], tag: str
+        before: dict,
+        after: dict,
+        required: typing.List[typing.Tuple[str, ...]],
+        model: typing.Optional[typing.Tuple[typing.Set[str], typing.Dict[str, str]]],
+        tag: str,
     ) -> None:
+        ns_files = model[0] if model is not None else set()
         for k in sorted(before):
             if k not in after:
                 vio.append(("outside_outdir", f"{tag}: {k} was removed"))
@@ -708,9 +781,17 @@ def disk_case(
             present = [k for k in cands if k in after]
             if not present:
                 vio.append(("type_file_missing", f"{tag}: no file {cands[0]}"))
-            elif len(present) > 1:
-                vio.append(("unexpected_file", f"{tag}: one type was generated to both {present[0]} and {present[1]}"))
             allowed.update(cands)
+        if model is not None:
+            # the model and the disk agree: every type's file is where find_output_path_for_type says, and every
+            # type file that was written is the file of a type in the model (so no type is written twice)
+            for n, mp in sorted(model[1].items()):
+                if mp not in after:
+                    vio.append(("model_disk_mismatch", f"{tag}: the model maps {n} to {mp} but no such file was written"))
+            claimed = set(model[1].values())
+            for k in sorted(files):
+                if k in allowed and k not in claimed and k not in ns_files:
+                    vio.append(("unexpected_file", f"{tag}: type file {k} was written but the model maps no type to it"))
         for k in sorted(files):
             if k in allowed or k in ns_files:
                 continue
@@ -718,18 +799,28 @@ def disk_case(
                 continue
             vio.append(("unexpected_file", f"{tag}: file {k} is neither a type, a namespace nor a support file"))
 
-    def model_ns_files(parsed: dict, order: typing.Sequence[str], root: str) -> typing.Set[str]:
-        node = build_namespace_tree(
-            [parsed[n] for n in order], in_spelling(spelling, sandbox, root), out, lctx
-        )
-        res_ = set()
-        for _n, p in node.get_all_namespaces():
-            q = pathlib.Path(os.path.normpath(os.path.join(str(sandbox), str(p))))
-            try:
-                res_.add(str(q.relative_to(sandbox)))
-            except ValueError:
-                pass
-        return res_
+    def rel_to_sandbox(p_: typing.Any) -> typing.Optional[str]:
+        q = pathlib.Path(os.path.normpath(os.path.join(str(sandbox), str(p_))))
+        try:
+            return str(q.relative_to(sandbox))
+        except ValueError:
+            return None
+
+    def model_files(
+        parsed: dict, order: typing.Sequence[str], root: str
+    ) -> typing.Optional[typing.Tuple[typing.Set[str], typing.Dict[str, str]]]:
+        """(namespace files, {type: file}) as the in-process model names them, relative to the sandbox."""
+        try:
+            types_ = [parsed[n] for n in order]
+            node = build_namespace_tree(types_, in_spelling(spelling, sandbox, root), out, lctx)
+            nsf_ = {r_ for r_ in (rel_to_sandbox(p_) for _n, p_ in node.get_all_namespaces()) if r_ is not None}
+            tmap = {}
+            for t_ in types_:
+                r_ = rel_to_sandbox(node.find_output_path_for_type(t_))
+                tmap[tid_of(t_)] = r_ if r_ is not None else "<outside the sandbox>"
+            return nsf_, tmap
+        except Exception:  # pylint: disable=broad-except
+            return None  # the model oracle reports this; here the namespace files are simply not excused
 
     r_parsed, s_parsed, rejected = parse_roots(sandbox, names)
     if rejected is not None:
@@ -741,13 +832,10 @@ def disk_case(
     if res.rc != 0:
         vio.append(("generation_failed", f"nnvg for root {ROOT} failed: {res.exc or res.err.strip()[-200:]}"))
     required = [
-        tuple(dict.fromkeys([f"{out_rel}/" + "/".join(ex.rel[n]), f"{out_rel}/" + "/".join(ex.alt[n])])) for n in names
+        tuple(f"{out_rel}/" + "/".join(c) for c in ex.cands[n]) for n in names
     ]
-    try:
-        nsf = model_ns_files(r_parsed, list(names), ROOT)  # (for the empty set: the file of the nameless root)
-    except Exception:  # pylint: disable=broad-except
-        nsf = set()  # the model oracle reports this; here the namespace files are simply not excused
-    classify(snap0, snap1, required, nsf, f"root {ROOT}")
+    model_r = model_files(r_parsed, list(names), ROOT)  # (for the empty set: the file of the nameless root)
+    classify(snap0, snap1, required, model_r, f"root {ROOT}")
     if not names:
         return vio, ex, runs
 
@@ -772,20 +860,17 @@ def disk_case(
     ufile = f"{out_rel}/" + "/".join(ex_s.rel[uname])
     if ex_s.rel[uname] != ex_s.alt[uname]:
         raise HarnessError("glue: the second root's type name is not expected to be changed by the stropping")
-    try:
-        nsf2 = model_ns_files(s_parsed, [uname], SECOND_ROOT)
-    except Exception:  # pylint: disable=broad-except
-        nsf2 = set()
-    classify(snap1, snap2, [(ufile,)], nsf2, f"root {SECOND_ROOT}")
+    model_s = model_files(s_parsed, [uname], SECOND_ROOT)
+    classify(snap1, snap2, [(ufile,)], model_s, f"root {SECOND_ROOT}")
     upath = sandbox / ufile
-    if upath.exists() and lang in ("c", "cpp", "py"):
+    if upath.exists() and base_lang in ("c", "cpp", "py"):
         text = upath.read_text(encoding="utf-8")
-        if lang in ("c", "cpp"):
+        if base_lang in ("c", "cpp"):
             targets = set(INCLUDE_RE.findall(text))
             prefix = strop1(lctx, ROOT) + "/"
             want = set()
             for n in names:
-                cands = list(dict.fromkeys(["/".join(ex.rel[n]), "/".join(ex.alt[n])]))
+                cands = ["/".join(c) for c in ex.cands[n]]
                 want.update(cands)
                 found = [c for c in cands if c in targets]
                 if not found:
@@ -793,6 +878,13 @@ def disk_case(
                 elif not any(f"{out_rel}/{c}" in snap1 for c in found):
                     vio.append(
                         ("xroot_ref_disk", f"{ufile} includes {found[0]} but the run for {ROOT} created no such file")
+                    )
+                elif model_r is not None and model_r[1].get(n) not in [f"{out_rel}/{c}" for c in found]:
+                    vio.append(
+                        (
+                            "xroot_ref_disk",
+                            f"{ufile} includes {found[0]} for {n}, which the run for {ROOT} generated to {model_r[1].get(n)}",
+                        )
                     )
             for t in sorted(targets):
                 if t.startswith(prefix) and t not in want:
@@ -826,7 +918,7 @@ def _disk_job(job: typing.Tuple[typing.Tuple[str, ...], str, typing.Optional[str
     vio, ex, runs = disk_case(sandbox, names, lang, ext, stem, spelling)
     case = {"mode": "disk", "types": list(names), "lang": lang, "ext": ext, "stem": stem, "spelling": spelling}
     for kind, what in vio:
-        bag.add({"kind": kind, "lang": lang, "folded_ns": ex.folded_ns}, case, f"[{lang}, {spelling}] {what}")
+        bag.add(sig_for(lang, ex.folded_ns, kind), case, f"[{lang}, {spelling}] {what}")
     os.chdir("/")
     shutil.rmtree(sandbox, ignore_errors=True)
     return {"bag": bag, "runs": runs, "nontrivial": int(ex.nontrivial() and runs > 0), "folded": int(ex.folded_ns)}
@@ -835,6 +927,11 @@ def _disk_job(job: typing.Tuple[typing.Tuple[str, ...], str, typing.Optional[str
 DISK_CONFIGS: typing.List[typing.Tuple[typing.Optional[str], typing.Optional[str], str]] = [
     (None, None, sp) for sp in SPELLINGS
 ] + [(".hxx", None, "rel"), (None, "nsidx", "abs_slash"), (".gen.h", "nsidx", "rel_dot_nested")]
+
+NOSTROP_DISK_CONFIGS: typing.List[typing.Tuple[typing.Optional[str], typing.Optional[str], str]] = [
+    (None, None, "rel"),
+    (".hxx", "nsidx", "abs_slash"),
+]
 
 # pairs the quick tier always runs on disk (one per feature); the other pairs come from the seed slice
 DISK_CORE_PAIRS = [
@@ -882,8 +979,8 @@ def run(ctx: Ctx) -> int:
     djobs = [
         (s, lang, ext, stem, sp, str(ctx.scratch))
         for s in sorted(disk_sel, key=lambda s: (-len(s), s))
-        for lang in LANGS
-        for (ext, stem, sp) in DISK_CONFIGS
+        for lang in LANGS + NOSTROP_TARGETS
+        for (ext, stem, sp) in (DISK_CONFIGS if split_target(lang)[1] else NOSTROP_DISK_CONFIGS)
     ]
     dresults = ctx.pool_map(_disk_job, djobs, chunksize=2)
     druns = sum(r["runs"] for r in dresults)
@@ -922,8 +1019,20 @@ def run(ctx: Ctx) -> int:
         disk_sets_explored=len(disk_sel),
         disk_generator_runs=druns,
         disk_cases=len(djobs),
+        nostrop_model_cells=int(feat.get("nostrop_cells", 0)),
+        nostrop_model_cells_with_reserved_token=int(feat.get("nostrop_cells_with_reserved_token", 0)),
+        nostrop_model_cells_ns_folder_differs_from_type_folder=int(feat.get("nostrop_cells_ns_folder_differs", 0)),
+        nostrop_disk_cases=sum(1 for j in djobs if not split_target(j[1])[1]),
     )
-    for need in ("gap", "multi_version", "stropped", "folded_ns", "folded_type_paths", "empty_set"):
+    for need in (
+        "gap",
+        "multi_version",
+        "stropped",
+        "folded_ns",
+        "folded_type_paths",
+        "empty_set",
+        "nostrop_cells_with_reserved_token",
+    ):
         if not feat.get(need):
             raise HarnessError(f"vacuous exploration: feature '{need}' was never exercised")
     if feat.get("rejected_by_pydsdl", 0) * 4 > len(chosen):
@@ -949,7 +1058,9 @@ def run(ctx: Ctx) -> int:
         f"{MAX_SET} types out of a 12-type universe x {len(LANGS)} languages x {len(EXTS)} extensions x {len(STEMS)} "
         f"stems x {len(SPELLINGS)} spellings, every order of the type list in {int(feat.get('cells_every_order', 0))}/"
         f"{int(feat.get('cells', 0))} of these cells (first and reversed order in the others); disk: {len(disk_sel)}/{len(disk_sets)} "
-        f"subsets of <= {MAX_DISK_SET} types x {len(LANGS)} languages x {len(DISK_CONFIGS)} configurations, two runs each",
+        f"subsets of <= {MAX_DISK_SET} types x {len(LANGS)} languages x {len(DISK_CONFIGS)} configurations, two runs each; "
+        f"additionally c and cpp with the enable_stropping:false override: same sets x default extension/stem x "
+        f"{len(NOSTROP_SPELLINGS)} spellings x every order (model), x {len(NOSTROP_DISK_CONFIGS)} configurations (disk)",
         "exhaustive": exhaustive,
     }
     return ctx.finish(
@@ -965,6 +1076,9 @@ def run(ctx: Ctx) -> int:
             "hash seed fixed to 0; the iteration order of the sets inside nunavut._namespace is additionally forced "
             "ascending/descending on one configuration per type set",
             "disk oracle runs as root with default --file-mode; permissions are C12's subject",
+            "with enable_stropping:false (c, cpp only; the py templates fail on any type with a field under that "
+            "override) every path component may be the unstropped or the stropped name; demanded are one file per type, "
+            "model == disk, and references (#include of the second root, include list) == the generated location",
         ],
         min_outcomes=("distinct_outcomes", 100),
     )
